@@ -287,10 +287,10 @@ func (in *inst) rewriteFile(f *ast.File) []byte {
 					switch b.Name() {
 					case "close":
 						c.Replace(in.call("Close", x.Args[0]))
-					case "len", "cap":
+					case "len":
 						if tv, ok := in.info.Types[x.Args[0]]; ok {
 							if _, isChan := tv.Type.Underlying().(*types.Chan); isChan {
-								fatal("%s: len/cap of a channel is not supported", in.pos(x))
+								c.Replace(in.call("LenAny", x.Args[0]))
 							}
 						}
 					}
@@ -535,7 +535,7 @@ func (in *inst) rewriteStmt(s ast.Stmt) []ast.Stmt {
 			case *types.Map:
 				return []ast.Stmt{in.rewriteMapRange(x)}
 			case *types.Chan:
-				fatal("%s: range over channel is not supported", in.pos(x))
+				return []ast.Stmt{in.rewriteChanRange(x)}
 			}
 		}
 		return []ast.Stmt{x}
@@ -710,6 +710,27 @@ func (in *inst) rewriteSelect(sel *ast.SelectStmt) ast.Stmt {
 		return sw
 	}
 	return &ast.BlockStmt{List: append(pre, sw)}
+}
+
+// for v := range ch  =>  for { v, ok := vrt.Recv2(ch); if !ok { break }; body }
+func (in *inst) rewriteChanRange(r *ast.RangeStmt) ast.Stmt {
+	okv := in.tmp("ok")
+	var lhs ast.Expr = ast.NewIdent("_")
+	tok := token.DEFINE
+	if r.Key != nil && !isBlank(r.Key) {
+		lhs = r.Key
+		tok = r.Tok
+	}
+	var body []ast.Stmt
+	if tok == token.DEFINE {
+		body = append(body, &ast.AssignStmt{Lhs: []ast.Expr{lhs, okv}, Tok: token.DEFINE, Rhs: []ast.Expr{in.call("Recv2", r.X)}})
+	} else {
+		body = append(body, &ast.DeclStmt{Decl: &ast.GenDecl{Tok: token.VAR, Specs: []ast.Spec{&ast.ValueSpec{Names: []*ast.Ident{okv}, Type: ast.NewIdent("bool")}}}})
+		body = append(body, &ast.AssignStmt{Lhs: []ast.Expr{lhs, okv}, Tok: token.ASSIGN, Rhs: []ast.Expr{in.call("Recv2", r.X)}})
+	}
+	body = append(body, &ast.IfStmt{Cond: &ast.UnaryExpr{Op: token.NOT, X: okv}, Body: &ast.BlockStmt{List: []ast.Stmt{&ast.BranchStmt{Tok: token.BREAK}}}})
+	body = append(body, r.Body.List...)
+	return &ast.ForStmt{Body: &ast.BlockStmt{List: body}}
 }
 
 func (in *inst) rewriteMapRange(r *ast.RangeStmt) ast.Stmt {
